@@ -17,6 +17,9 @@ use rpki::repository::resources::{AsBlock, AsBlocks, AsBlocksBuilder, AsResource
 use serde_json::{json, Value};
 use std::str::FromStr;
 
+#[path = "c03_ber.rs"]
+mod c03_ber;
+
 pub type Obs = Vec<(u128, u128, bool)>;
 
 pub fn blocks_json(b: &[(u128, u128)]) -> Value {
@@ -806,4 +809,5 @@ pub fn run(ctx: &mut Ctx) {
     crate::c03_ip::run_ip(ctx);
     crate::c03_long::run_long(ctx);
     crate::c03_serde::run_serde(ctx);
+    c03_ber::run_ber(ctx);
 }
